@@ -3,7 +3,7 @@ import ast
 
 from . import scopes
 from ..core.report import DOMAIN_D
-from ..rules import roles, loops, eager, degree, frame, mirror, safediv, runmin, onsegment, sides, unpack, purity, ericson, misc2, siblings, affine
+from ..rules import partition, roles, loops, eager, degree, frame, mirror, safediv, runmin, onsegment, sides, unpack, purity, ericson, misc2, siblings, affine
 from ..engines.signs import Signs, NONNEG, ZERO
 from .common import e1, e2
 
@@ -70,6 +70,7 @@ def run(idx, rep, tier):
     purity.r_pureargs(idx, rep, [x.name for x in idx.lib_modules() if x.name.startswith("distance3d.distance")] + ["distance3d.utils", "distance3d.geometry"], floor=30)
     onsegment.r_halfsize(idx, rep, [x.name for x in idx.lib_modules() if x.name.startswith("distance3d.distance")], floor=5)
     ericson.r_ericson(idx, rep)
+    partition.r_isolated(idx, rep, [m.name for m in idx.lib_modules() if m.name.startswith('distance3d.distance')], floor=1)
     misc2.r_dupcond(idx, rep, [m.name for m in idx.lib_modules()], floor=3)
     siblings.r_segsibling(idx, rep)
     misc2.r_parallelsign(idx, rep, [x.name for x in idx.lib_modules() if x.name.startswith("distance3d.distance")])
